@@ -684,7 +684,7 @@ func (tkn *Tokenizer) Scan() (int, []byte) {
 		default:
 			// must be before handling quotes as string literals to handle double
 			if tkn.dialect.QuoteHandler().IsIdentifierQuote(byte(ch)) {
-				return tkn.scanLiteralIdentifier()
+				return tkn.scanLiteralIdentifier(byte(ch))
 			}
 			if tkn.dialect.QuoteHandler().IsStringLiteralQuote(byte(ch)) {
 				return tkn.scanString(ch, stringTokenType[ch])
@@ -765,20 +765,23 @@ func (tkn *Tokenizer) scanBitLiteral() (int, []byte) {
 	return BIT_LITERAL, buffer.Bytes()
 }
 
-func (tkn *Tokenizer) scanLiteralIdentifier() (int, []byte) {
+// scanLiteralIdentifier reads an identifier opened by the quote character `quote`: only this
+// character ends it and only this character is doubled inside it (in ANSI mode MySQL knows two
+// identifier quotes; the other one is an ordinary character of the identifier)
+func (tkn *Tokenizer) scanLiteralIdentifier(quote byte) (int, []byte) {
 	buffer := &bytes2.Buffer{}
 	var quoteSeen *uint16
 	for {
 		if quoteSeen != nil {
-			if !tkn.dialect.QuoteHandler().IsIdentifierQuote(byte(tkn.lastChar)) {
+			if tkn.lastChar != uint16(quote) {
 				break
 			}
 			quoteSeen = nil
-			buffer.WriteByte(tkn.dialect.QuoteHandler().GetIdentifierQuote())
+			buffer.WriteByte(quote)
 			tkn.next()
 			continue
 		}
-		if tkn.dialect.QuoteHandler().IsIdentifierQuote(byte(tkn.lastChar)) {
+		if tkn.lastChar == uint16(quote) {
 			tmp := tkn.lastChar
 			quoteSeen = &tmp
 		} else if tkn.lastChar == eofChar {
